@@ -93,7 +93,7 @@ Proof. exact const_false_streams_choice. Qed.
    sources of anstyle_query::{clicolor, clicolor_force, no_color, term_supports_color,
    term_supports_ansi_color, truecolor, is_ci, non_empty} (non-Windows configuration),
    colorchoice::{AtomicChoice::{from_choice, to_choice, new, get, set}, ColorChoice::{global,
-   write_global}}, colorchoice_clap::Color::{as_choice, write_global} and anstream::auto::choice.
+   write_global}}, colorchoice_clap::Color::{as_choice, write_global}, anstream::auto::choice and AutoStream::choice.
    [e] is std::env::var_os, [user] the value of `static USER` (an AtomicUsize = a register),
    [raw] the answer of raw.is_terminal(); None = a Rust panic (the `expect` of AtomicChoice::get). *)
 
@@ -111,6 +111,11 @@ Theorem c09_translated_choice_is_model : forall e user raw,
   match ch_to_choice user with Some g => Some (choice_model g e raw) | None => None end.
 Proof. exact translated_choice_is_model. Qed.
 
+Theorem c09_translated_autostream_choice_is_model : forall e user raw,
+  g_autostream_choice e user raw =
+  match ch_to_choice user with Some g => Some (choice_model g e raw) | None => None end.
+Proof. exact translated_autostream_choice_is_model. Qed.
+
 (* the translated arms of from_choice / to_choice / as_choice are the generated tables *)
 Theorem c09_translated_from_choice : forall c, g_from_choice c = Some (ch_from_choice c).
 Proof. exact g_from_choice_eq. Qed.
@@ -121,10 +126,10 @@ Proof. exact g_to_choice_eq. Qed.
 Theorem c09_translated_as_choice : forall f, g_as_choice f = Some (ch_as_choice f).
 Proof. exact g_as_choice_eq. Qed.
 
-(* `c.write_global(); choice(raw)`, translated code only: whatever the static held before, the
+(* `c.write_global(); AutoStream::choice(&raw)`, translated code only: whatever the static held before, the
    decision is the decision list of the property, for every environment; it never panics *)
 Theorem c09_translated_write_then_choice_is_spec : forall c e user raw,
-  (u <- g_write_global c user ;; g_choice e u raw) = Some (choice_spec c e raw).
+  (u <- g_write_global c user ;; g_autostream_choice e u raw) = Some (choice_spec c e raw).
 Proof. exact translated_write_then_choice_is_spec. Qed.
 
 (* `Color { color: f }.write_global(); ColorChoice::global()`, translated code only *)
